@@ -1430,3 +1430,73 @@ func corpusWideSecrets() []wcmd {
 		mk(18, "peering:delete", "peering delete peer1", mustEncodeProto(structs.PeeringDeleteType, &pbpeering.PeeringDeleteRequest{Name: name})),
 	}
 }
+
+// corpusWideAudit: a fixed history that reaches, on every run, the input shapes the audit round
+// added (each one the witness of an open finding): a node name re-spelled by a later registration
+// (the service row keeps its own spelling), one service name in two letter-case spellings, a
+// mesh-topology row deleted by one proxy although another still declares the pair, a
+// service-defaults entry that loses its Destination, a route written back with a status (stored
+// hash predates the status), and a secrets row adopted by a re-created, now dialing, peering.
+func corpusWideAudit() []wcmd {
+	mk := func(idx uint64, kind, desc string, data []byte) wcmd {
+		return wcmd{Idx: idx, Kind: kind, Desc: desc, Data: hex.EncodeToString(data)}
+	}
+	reg := func(idx uint64, node string, ns *structs.NodeService) wcmd {
+		return mk(idx, "register", fmt.Sprintf("register node=%s svc=%s/%s", node, ns.ID, ns.Service),
+			mustEncode(structs.RegisterRequestType, &structs.RegisterRequest{Datacenter: "dc1", Node: node, Address: "10.0.0.1", Service: ns}))
+	}
+	proxy := func(up string) *structs.NodeService {
+		return &structs.NodeService{Kind: structs.ServiceKindConnectProxy, ID: "webp", Service: "web-proxy", Port: 8002,
+			Proxy: structs.ConnectProxyConfig{DestinationServiceName: "web", DestinationServiceID: "web1",
+				Upstreams: structs.Upstreams{{DestinationName: up, LocalBindPort: 9191}}}}
+	}
+	cfg := func(idx uint64, op structs.ConfigEntryOp, e structs.ConfigEntry, cas uint64, norm bool) wcmd {
+		if norm {
+			if err := e.Normalize(); err != nil {
+				panic(err)
+			}
+			if err := e.Validate(); err != nil {
+				panic(err)
+			}
+		}
+		e.GetRaftIndex().ModifyIndex = cas
+		return mk(idx, "config:"+e.GetKind()+":"+string(op), fmt.Sprintf("config-entry %s %s/%s index=%d", op, e.GetKind(), e.GetName(), cas),
+			mustEncode(structs.ConfigEntryRequestType, &structs.ConfigEntryRequest{Op: op, Datacenter: "dc1", Entry: e}))
+	}
+	route := func() *structs.TCPRouteConfigEntry {
+		return &structs.TCPRouteConfigEntry{Kind: structs.TCPRoute, Name: "tr1",
+			Parents:  []structs.ResourceReference{{Kind: structs.APIGateway, Name: "agw", SectionName: "l2"}},
+			Services: []structs.TCPService{{Name: "db"}}}
+	}
+	withStatus := route()
+	if err := withStatus.Normalize(); err != nil {
+		panic(err)
+	}
+	withStatus.SetStatus(structs.Status{Conditions: []structs.Condition{{Type: "Accepted", Status: "True", Reason: "Accepted", Message: "route is valid",
+		LastTransitionTime: timePtr(baseTime.Add(18 * time.Second))}}})
+	id := uni.peerIDs[0]
+	accept := &pbpeering.PeeringWriteRequest{Peering: &pbpeering.Peering{ID: id, Name: "peer1", State: pbpeering.PeeringState_PENDING},
+		SecretsRequest: &pbpeering.SecretsWriteRequest{PeerID: id, Request: &pbpeering.SecretsWriteRequest_GenerateToken{
+			GenerateToken: &pbpeering.SecretsWriteRequest_GenerateTokenRequest{EstablishmentSecret: "5ec7e702-0000-0000-0000-000000000001"}}}}
+	dial := &pbpeering.PeeringWriteRequest{Peering: &pbpeering.Peering{ID: id, Name: "peer1", State: pbpeering.PeeringState_ESTABLISHING,
+		PeerID: "dddddddd-0000-0000-0000-000000000000", PeerServerName: "server.dc2.peer", PeerServerAddresses: []string{"198.51.100.1:8502"}},
+		SecretsRequest: &pbpeering.SecretsWriteRequest{PeerID: id, Request: &pbpeering.SecretsWriteRequest_Establish{
+			Establish: &pbpeering.SecretsWriteRequest_EstablishRequest{ActiveStreamSecret: "5ec7e702-0000-0000-0000-000000000002"}}}}
+	return []wcmd{
+		reg(2, "n1", &structs.NodeService{ID: "db1", Service: "db", Port: 8001}),
+		reg(4, "N1", proxy("api")),
+		reg(6, "n2", &structs.NodeService{ID: "db1", Service: "DB", Port: 8001}),
+		reg(8, "n2", proxy("api")),
+		reg(10, "N1", proxy("db")),
+		cfg(12, structs.ConfigEntryUpsert, &structs.ServiceConfigEntry{Kind: structs.ServiceDefaults, Name: "ext", Protocol: "tcp",
+			Destination: &structs.DestinationConfig{Addresses: []string{"example.com"}, Port: 443}}, 0, true),
+		cfg(14, structs.ConfigEntryUpsert, &structs.ServiceConfigEntry{Kind: structs.ServiceDefaults, Name: "ext", Protocol: "tcp"}, 0, true),
+		cfg(16, structs.ConfigEntryUpsert, route(), 0, true),
+		cfg(18, structs.ConfigEntryUpsertWithStatusCAS, withStatus, 16, false),
+		mk(20, "peering:write", "peering write peer1 id=..1 state=PENDING secrets=true (establishment secret)", mustEncodeProto(structs.PeeringWriteType, accept)),
+		mk(21, "peering:terminate", "peering terminate id=..1", mustEncodeProto(structs.PeeringTerminateByIDType, &pbpeering.PeeringTerminateByIDRequest{ID: id})),
+		mk(22, "peering:delete", "peering delete peer1", mustEncodeProto(structs.PeeringDeleteType, &pbpeering.PeeringDeleteRequest{Name: "peer1"})),
+		mk(24, "peering:write", "peering write peer1 id=..1 state=ESTABLISHING secrets=true (dialing, stream secret)", mustEncodeProto(structs.PeeringWriteType, dial)),
+		mk(26, "kvs:set", "kvs set key=\"a\"", mustEncode(structs.KVSRequestType, &structs.KVSRequest{Datacenter: "dc1", Op: api.KVSet, DirEnt: structs.DirEntry{Key: "a", Value: []byte{1}}})),
+	}
+}
